@@ -90,6 +90,32 @@ def run(ck):
               sample=dict(rule="SYM", type=adtn, written=sw, read=sr))
         ck.ob("COV", adtn, "all-fields-stored", set(sw) >= set(f for f in fields if f not in ("export",)) or set(fields) - set(sw) <= {"export"},
               "fields %s; written %s" % (fields, sw), "%s:%d" % (ws[wk]["file"], ws[wk]["line"]), nontrivial=False)
+    # typed sequences: what the writer emits, item by item (including length prefixes and the items written inside loops), is
+    # what the reader parses, in the same order and with the same types
+    def norm_t(t):
+        t = re.sub(r"concordium_wasm::(artifact|types|parse|validate)::", "", t or "")
+        t = re.sub(r"std::(vec|option|result|collections)::", "", t)
+        t = re.sub(r"<'[a-z_]+>", "", t)
+        t = re.sub(r"^&(mut )?", "", t)
+        t = {"InstantiatedTable": "Vec<Option<u32>>", "ImportFunc": "I", "Vec<CompiledCode>": "Vec<CompiledFunctionBytes>", "CompiledCode": "CompiledFunctionBytes",
+             "TypeIndex": "u32", "FuncIndex": "u32", "[ValueType]": "&[ValueType]"}.get(t, t)
+        t = t.replace("Vec<CompiledCode>", "Vec<CompiledFunctionBytes>")
+        t = re.sub(r"^Vec<(.*)>$", r"[\1]", t)       # a slice and a vector have the same encoding (length, then the items)
+        t = t.replace("&[", "[")
+        return t
+    for wk, rk, adtn in plist:
+        if wk not in ws or rk not in rs:
+            continue
+        fw, fr = Fn(ws[wk]), Fn(rs[rk])
+        wt_ = sorted(((t["fline"] if "fline" in t else fw.b["blocks"][bi]["t"].get("line", 0)), norm_t(t["f"].get("self"))) for (bi, t) in fw.calls(r"output::Output::output$|Output>::output$"))
+        rt_ = []
+        for (bi, t) in fr.calls(r"GetParseable::next$|GetParseable<.*>::next$|Parseable::parse$|Parseable<.*>::parse$"):
+            m = re.match(r"^std::result::Result<(.*), anyhow::Error>$", fr.locals[t["dest"][0]])
+            rt_.append((t.get("fline", 0), norm_t(m.group(1) if m else fr.locals[t["dest"][0]])))
+        rt_.sort()
+        a, b2 = [x[1] for x in wt_], [x[1] for x in rt_]
+        ck.ob("SYM", adtn, "typed-sequence", a == b2 and len(a) >= 2, "written %s / parsed %s" % (a, b2), "%s:%d" % (ws[wk]["file"], ws[wk]["line"]))
+
     # version / global-init tags
     av = find_impl(ck, "sc", W, r"artifact::ArtifactVersion$", r"Parseable", "parse")
     aw = find_impl(ck, "sc", W, r"artifact::ArtifactVersion$", r"output::Output$", "output")
